@@ -69,6 +69,8 @@ struct Handle {
 #[derive(Clone, Copy, PartialEq, Debug)]
 enum Class {
     Code { owner: u32, variant: usize },
+    /// the source memory of a `memory.copy` (the site before it is the destination and carries the tag)
+    CodeSrc { owner: u32 },
     GInit { owner: u32 },
     Export { pos: usize },
     Start,
@@ -135,7 +137,7 @@ fn memarg(m: u32, align: u8) -> MemArg {
 }
 
 /// the operators of one code site (after its tag), as injected through the API
-fn site_ops<'a>(sp: Sp, variant: usize, idx: u32) -> Vec<Operator<'a>> {
+fn site_ops<'a>(sp: Sp, variant: usize, idx: u32, idx2: u32) -> Vec<Operator<'a>> {
     use Operator::*;
     let c0 = || I32Const { value: 0 };
     match sp {
@@ -154,7 +156,7 @@ fn site_ops<'a>(sp: Sp, variant: usize, idx: u32) -> Vec<Operator<'a>> {
             2 => vec![MemorySize { mem: idx }, Drop],
             3 => vec![c0(), MemoryGrow { mem: idx }, Drop],
             4 => vec![c0(), c0(), c0(), MemoryFill { mem: idx }],
-            5 => vec![c0(), c0(), c0(), MemoryCopy { dst_mem: idx, src_mem: idx }],
+            5 => vec![c0(), c0(), c0(), MemoryCopy { dst_mem: idx, src_mem: idx2 }],
             6 => vec![c0(), c0(), c0(), MemoryInit { data_index: 0, mem: idx }],
             7 => vec![c0(), I32AtomicLoad { memarg: memarg(idx, 2) }, Drop],
             8 => vec![c0(), c0(), I32AtomicRmwAdd { memarg: memarg(idx, 2) }, Drop],
@@ -171,8 +173,8 @@ fn site_ops<'a>(sp: Sp, variant: usize, idx: u32) -> Vec<Operator<'a>> {
 const NVAR_M: usize = 16;
 
 /// the same site as text, for the base module
-fn site_wat(sp: Sp, variant: usize, idx: u32) -> String {
-    let ops = site_ops(sp, variant, idx);
+fn site_wat(sp: Sp, variant: usize, idx: u32, idx2: u32) -> String {
+    let ops = site_ops(sp, variant, idx, idx2);
     let mut s = String::new();
     for o in ops {
         use Operator::*;
@@ -401,12 +403,11 @@ fn decode(wasm: &[u8], w: &World, positional: &Positional) -> Result<Decoded, St
                     if let Some(s) = pending {
                         let rs = refs_of(&op);
                         if !rs.is_empty() {
-                            let t = if rs.len() == 2 && rs[0] != rs[1] {
-                                format!("{}{}/{}", rs[0].0.ch(), rs[0].1, rs[1].1)
-                            } else {
-                                format!("{}{}", rs[0].0.ch(), rs[0].1)
-                            };
-                            d.sites.insert(s, t);
+                            d.sites.insert(s, format!("{}{}", rs[0].0.ch(), rs[0].1));
+                            if rs.len() == 2 {
+                                // memory.copy: the next site number is the source memory
+                                d.sites.insert(s + 1, format!("{}{}", rs[1].0.ch(), rs[1].1));
+                            }
                             pending = None;
                         }
                     }
@@ -703,9 +704,11 @@ fn gen_base(r: &mut Rng, w: &mut World, shape: usize) -> Base {
         let mut toks = vec![];
         let nsites = r.weighted(&[1, 3, 3, 2, 1]);
         for _ in 0..nsites {
-            if let Some((s, text)) = gen_code_site(r, w, *uid) {
-                body.push_str(&format!("i32.const {} drop {} ", SITE0 + s.id as i32, text));
-                toks.push(w.refstr(&s));
+            if let Some((ss, text)) = gen_code_site(r, w, *uid) {
+                body.push_str(&format!("i32.const {} drop {} ", SITE0 + ss[0].id as i32, text));
+                for s in &ss {
+                    toks.push(w.refstr(s));
+                }
             }
         }
         body.push_str(")\n");
@@ -752,7 +755,7 @@ fn gen_base(r: &mut Rng, w: &mut World, shape: usize) -> Base {
 }
 
 /// a code site in the function `owner`: target any handle of a random space (sometimes a dead one)
-fn gen_code_site(r: &mut Rng, w: &mut World, owner: u32) -> Option<(Site, String)> {
+fn gen_code_site(r: &mut Rng, w: &mut World, owner: u32) -> Option<(Vec<Site>, String)> {
     let sp = [Sp::F, Sp::G, Sp::M][r.weighted(&[4, 3, 4])];
     let live = w.live_handles(sp);
     let all = w.all_handles(sp);
@@ -780,17 +783,39 @@ fn gen_code_site(r: &mut Rng, w: &mut World, owner: u32) -> Option<(Site, String
         }
     };
     let s = w.site(sp, h, Class::Code { owner, variant });
-    let text = site_wat(sp, variant, w.handles[h].id);
-    Some((s, text))
+    let mut sites = vec![s];
+    let mut id2 = w.handles[h].id;
+    if sp == Sp::M && variant == 5 {
+        // memory.copy between two (usually different) memories
+        let pool = if live.is_empty() { all.clone() } else { live.clone() };
+        let h2 = *r.pick(&pool);
+        id2 = w.handles[h2].id;
+        sites.push(w.site(Sp::M, h2, Class::CodeSrc { owner }));
+    }
+    let text = site_wat(sp, variant, w.handles[h].id, id2);
+    Some((sites, text))
 }
 
-fn inject_site<'a, T: Inject<'a>>(t: &mut T, s: &Site, idx: u32) {
-    t.inject(Operator::I32Const { value: SITE0 + s.id as i32 });
-    t.inject(Operator::Drop);
-    if let Class::Code { variant, .. } = s.class {
-        for op in site_ops(s.sp, variant, idx) {
-            t.inject(op);
+fn inject_sites<'a, T: Inject<'a>>(t: &mut T, sites: &[Site], w: &World) {
+    let mut k = 0;
+    while k < sites.len() {
+        let s = &sites[k];
+        if let Class::Code { variant, .. } = s.class {
+            let idx = w.handles[s.h].id;
+            let mut idx2 = idx;
+            if let Some(n) = sites.get(k + 1) {
+                if matches!(n.class, Class::CodeSrc { .. }) {
+                    idx2 = w.handles[n.h].id;
+                    k += 1;
+                }
+            }
+            t.inject(Operator::I32Const { value: SITE0 + s.id as i32 });
+            t.inject(Operator::Drop);
+            for op in site_ops(s.sp, variant, idx, idx2) {
+                t.inject(op);
+            }
         }
+        k += 1;
     }
 }
 
@@ -1005,7 +1030,7 @@ pub fn run(ctx: &mut Ctx) {
         // expectation for each live site, from the world
         let live_site = |s: &Site| -> bool {
             match s.class {
-                Class::Code { owner, .. } => w.handles.iter().any(|h| h.sp == Sp::F && h.cur == Some(owner)),
+                Class::Code { owner, .. } | Class::CodeSrc { owner } => w.handles.iter().any(|h| h.sp == Sp::F && h.cur == Some(owner)),
                 Class::GInit { owner } => {
                     w.handles.iter().any(|h| h.sp == Sp::G && h.cur == Some(owner))
                         && w.sites.iter().filter(|x| x.class == Class::GInit { owner }).last().map(|x| x.id) == Some(s.id)
@@ -1176,6 +1201,7 @@ fn class_name(c: &Class) -> &'static str {
             8 | 9 | 11 | 14 => "code-atomic",
             _ => "code",
         },
+        Class::CodeSrc { .. } => "code-copy-src",
         Class::GInit { .. } => "ginit",
         Class::Export { .. } => "export",
         Class::Start => "start",
@@ -1210,8 +1236,8 @@ fn gen_op(r: &mut Rng, w: &mut World, import_ids: &HashMap<usize, u32>) -> Op {
                 let uid = w.ent(Sp::F, false, None);
                 let mut sites = vec![];
                 for _ in 0..r.weighted(&[1, 3, 2, 1]) {
-                    if let Some((s, _)) = gen_code_site(r, w, uid) {
-                        sites.push(s);
+                    if let Some((ss, _)) = gen_code_site(r, w, uid) {
+                        sites.extend(ss);
                     }
                 }
                 return Op::Alf { uid, sites };
@@ -1237,8 +1263,8 @@ fn gen_op(r: &mut Rng, w: &mut World, import_ids: &HashMap<usize, u32>) -> Op {
                         let uid = w.ent(Sp::F, false, None);
                         let mut sites = vec![];
                         for _ in 0..r.weighted(&[2, 2, 1]) {
-                            if let Some((s, _)) = gen_code_site(r, w, uid) {
-                                sites.push(s);
+                            if let Some((ss, _)) = gen_code_site(r, w, uid) {
+                                sites.extend(ss);
                             }
                         }
                         return Op::Ri { imp_id: *imp_id, h: Some(h), uid, sites };
@@ -1250,9 +1276,9 @@ fn gen_op(r: &mut Rng, w: &mut World, import_ids: &HashMap<usize, u32>) -> Op {
                     let owner = w.handles[h].cur.unwrap();
                     let mut sites = vec![];
                     for _ in 0..r.range(1, 3) {
-                        if let Some((s, _)) = gen_code_site(r, w, owner) {
-                            sites.push(s);
-                        }
+                        if let Some((ss, _)) = gen_code_site(r, w, owner) {
+                                sites.extend(ss);
+                            }
                     }
                     return Op::Inj { h, sites, at: r.below(2) };
                 }
@@ -1385,9 +1411,7 @@ fn gen_op(r: &mut Rng, w: &mut World, import_ids: &HashMap<usize, u32>) -> Op {
 fn build_body<'a>(fb: &mut FunctionBuilder<'a>, uid: u32, sites: &[Site], w: &World) {
     fb.inject(Operator::I32Const { value: FMARK + uid as i32 });
     fb.inject(Operator::Drop);
-    for s in sites {
-        inject_site(fb, s, w.handles[s.h].id);
-    }
+    inject_sites(fb, sites, w);
 }
 
 fn apply<'a>(m: &mut Module<'a>, op: &Op, w: &World) -> Ret {
@@ -1419,9 +1443,7 @@ fn apply<'a>(m: &mut Module<'a>, op: &Op, w: &World) -> Ret {
             let n = fm.body.instructions.len();
             let idx = if *at == 0 { 2.min(n - 1) } else { n - 1 };
             fm.before_at(Location::Module { func_idx: fid, instr_idx: idx });
-            for s in sites {
-                inject_site(&mut fm, s, w.handles[s.h].id);
-            }
+            inject_sites(&mut fm, sites, w);
             Ret::Unit
         }
         Op::Ag { uid, gk, site } => {
